@@ -12,6 +12,7 @@ import math
 from decimal import Decimal
 
 from vlib.common import *
+from vlib import auxprops
 from vlib import hpmath as hp
 
 IMPORTS = ("From SpdVerif Require Import Base.Rx Model.Optics Model.Fresnel Gen.Fresnel Gen.Beam Model.Beam Proofs.C13_norm "
@@ -539,11 +540,13 @@ def run(ctx):
         r = run_replay(ctx, binp)
         if r is not None:
             return r
-    msgs, spans = regen(ctx, ["beam", "fresnel", "kinematics"])
+    msgs, spans = regen(ctx, ["beam", "fresnel"])
     ctx.cov["translated_spans"] = {k: v for k, v in spans.items() if k.split("::")[0] in ("beam", "math", "utils", "crystal_setup")}
     for m in msgs:
-        ctx.proof_failures.append(("Gen/Kinematics.v" if m.rstrip().endswith("[generator kinematics]") else "Gen/Beam.v", "translator", m))
+        ctx.proof_failures.append(("Gen/Beam.v", "translator", m))
     proved = (not msgs) and prove(ctx, "C13", extra_targets=["Proofs/C13_case.vo", "Proofs/C04_cases.vo"])
+    # auxiliary composition (Props/C13_aux.v): the kinematic accessors of Beam (generated, Gen/Kinematics.v)
+    auxprops.prove_aux(ctx, "C13", ["kinematics"])
     okf, _, _ = coq_build(ctx, ["Findings/C13_snell_near_axis.vo"])
     if not okf:
         ctx.note("Findings/C13_snell_near_axis.v no longer compiles")
